@@ -8,6 +8,7 @@ from ..core import Fail, Skip, oracle
 from ..lean import fbits, parse_ints, parse_floats, run_driver
 
 ID = 'C14'
+DRIVERS = ('driver',)
 THEOREMS = [
     'PbBss.C14.greedy_assignment_bijective',
     'PbBss.C14.optimal_assignment_bijective',
